@@ -250,6 +250,22 @@ def run(s):
     s.oblige("C06.loading_order_and_propagation", load_order, [QA + "QHACalculatorAdapter._load_qha_calculator"], kind="finite")
     s.oblige("C06.qha_layer_forwarding", lambda: qha_layer(qa), [QA + "QHAPressureBaseInterface.p_array", QA + "QHAPressureBaseInterface.volumes", QA + "QHAVolumeBaseInterface.pressures"],
              kind="finite")
+    # ---------------- 3b. the pressure grid of the QHA layer IS the requested one: P_MIN + j DELTA_P for j < NTV, also for steps that are not exact in binary
+    def pressure_grid():
+        n = 0
+        for dp in (0.1, 0.2, 0.05, 0.3, 0.7, 0.25, 0.5, 1.0, 2.5, -1.25):
+            for pmin in (0.0, 0.7, 5.0, -6.0):
+                for ntv in range(2, 61):
+                    me = duck_of(qa.QHACalculator, settings={"P_MIN": pmin, "DELTA_P": dp, "NTV": ntv})
+                    got = numpy.asarray(me.desired_pressures_gpa, dtype=float)
+                    want = pmin + dp * numpy.arange(ntv)
+                    n += 1
+                    if got.shape != want.shape or not numpy.allclose(got, want, rtol=1e-12, atol=1e-12):
+                        return core.refuted("finite", "P_MIN = %g, DELTA_P = %g, NTV = %d: the pressure grid has %d point(s), ending at %r (requested %d points ending at %r)" % (
+                            pmin, dp, ntv, len(got), float(got[-1]) if len(got) else None, ntv, float(want[-1])), witness_id="pressure-grid:%g:%d" % (dp, ntv),
+                            replay={"reproduced": True, "P_MIN": pmin, "DELTA_P": dp, "NTV": ntv})
+        return core.proved("finite", "%d (P_MIN, DELTA_P, NTV) settings incl. steps 0.1, 0.2, 0.05, 0.3, 0.7 and a negative step: exactly NTV pressures P_MIN + j DELTA_P" % n)
+    s.oblige("C06.pressure_grid_is_the_requested_one", pressure_grid, [QA + "QHACalculator.desired_pressures_gpa"], kind="finite")
     # ---------------- 4. bounded: real calculations
     real_forwarding(s)
     real_runs(s)
